@@ -26,6 +26,21 @@ import sys
 from pathlib import Path
 SCHEMA_V_TEXT = (Path(__file__).resolve().parent.parent / 'coq' / 'theories' / 'Codec' / 'Schema.v').read_text()
 
+
+def coq_posts(posts):
+    """posts: list of dicts {'lo', 'hi', 'check': ('AtLeastOneOf', [ix...]) | ('RequiredIf', ix, key, coq_pval_text)} -> Coq list of post records"""
+    out = []
+    for q in posts:
+        c = q['check']
+        if c[0] == 'AtLeastOneOf':
+            chk = '(AtLeastOneOf [%s])' % '; '.join('%d%%nat' % i for i in c[1])
+        elif c[0] == 'RequiredIf':
+            chk = '(RequiredIf %d%%nat %d%%nat %s)' % (c[1], c[2], c[3])
+        else:
+            raise ValueError('unknown post check %r' % (c,))
+        out.append('{| p_lo := %d; p_hi := %d; p_check := %s |}' % (q['lo'], q['hi'], chk))
+    return '[' + '; '.join(out) + ']'
+
 HERE = Path(__file__).resolve().parent
 VERSION_CODES = {'KMIP_1_0': 10, 'KMIP_1_1': 11, 'KMIP_1_2': 12, 'KMIP_1_3': 13, 'KMIP_1_4': 14, 'KMIP_2_0': 20}
 LO_MIN, HI_MAX = 0, 1000
@@ -1736,7 +1751,12 @@ def render_coq(t):
             out.append('  c_oversize_check := %s;' % ('true' if c['oversize'] else 'false'))
             if 'c_minver' in SCHEMA_V_TEXT:
                 out.append('  c_substream := %s;' % ('true' if c.get('substream', True) else 'false'))
-                out.append('  c_minver := %d |}.' % (c['minver'] if c.get('minver') is not None else 0))
+                if 'c_post_rd' in SCHEMA_V_TEXT:
+                    out.append('  c_minver := %d;' % (c['minver'] if c.get('minver') is not None else 0))
+                    out.append('  c_post_rd := %s;' % coq_posts(c.get('post_rd', [])))
+                    out.append('  c_post_wr := %s |}.' % coq_posts(c.get('post_wr', [])))
+                else:
+                    out.append('  c_minver := %d |}.' % (c['minver'] if c.get('minver') is not None else 0))
             else:
                 out.append('  c_substream := %s |}.' % ('true' if c.get('substream', True) else 'false'))
         else:
